@@ -50,10 +50,40 @@ class Universe:
         return If(Or(F == 0, F == 1), BitVecVal(0, 32), BitVecVal(self.N, 32) - self.minvar(F))
 
     def popcount(self, F, w=64):
-        bits = [z3.ZeroExt(w - 1, z3.Extract(i, i, F)) for i in range(self.W)]
-        s = bits[0]
-        for b in bits[1:]: s = s + b
-        return s
+        # balanced adder tree on the narrowest width that holds the count (keeps the bit-blasted circuit small)
+        nw = self.N + 1
+        layer = [z3.ZeroExt(nw - 1, z3.Extract(i, i, F)) for i in range(self.W)]
+        while len(layer) > 1:
+            layer = [layer[i] + layer[i + 1] if i + 1 < len(layer) else layer[i] for i in range(0, len(layer), 2)]
+        return z3.ZeroExt(w - nw, layer[0])
+
+    def card(self, F):
+        """cardinality of a family as an uninterpreted function; its defining facts (card = popcount, hence the decomposition
+        card(F) = card(lo F) + card(hi F), card(0) = 0, card(1) = 1, card <= 2^N) are discharged once by `card_lemma_queries`"""
+        if not hasattr(self, '_card'): self._card = Function('card', BitVecSort(self.W), BitVecSort(64))
+        return self._card(F)
+
+    def card_facts(self, F):
+        nt = And(F != 0, F != 1)
+        cap = BitVecVal(1 << self.N, 64)
+        lo, hi = self.lo(F), self.hi(F)
+        return And(self.card(self.bv(0)) == 0, self.card(self.bv(1)) == 1,
+                   z3.Implies(nt, self.card(F) == self.card(lo) + self.card(hi)),
+                   z3.ULE(self.card(lo), cap), z3.ULE(self.card(hi), cap), z3.ULE(self.card(F), cap))
+
+    def card_lemma_queries(self):
+        """[(name, formula that must be UNSAT)] proving the facts in card_facts for card := popcount, split on the top variable"""
+        F = BitVec('F', self.W)
+        qs = []
+        for k in range(self.N):
+            case = self.minvar(F) == k
+            lo_c = F & self.bv(self.MW[k]); hi_c = self.remvar_c(F, k)
+            qs.append(('top variable %d: decomposition terms equal their closed forms' % k, And(case, Or(self.lo(F) != lo_c, self.hi(F) != hi_c))))
+            qs.append(('top variable %d: |F| = |F without it| + |F with it removed|' % k, And(case, self.popcount(lo_c) + self.popcount(hi_c) != self.popcount(F))))
+        qs.append(('terminals: |{}| = 0, |{{}}| = 1', Or(self.popcount(self.bv(0)) != 0, self.popcount(self.bv(1)) != 1)))
+        qs.append(('non-terminal families have a top variable', And(F != 0, F != 1, self.minvar(F) == self.N)))
+        qs.append(('|F| <= 2^N', z3.UGT(self.popcount(F), BitVecVal(1 << self.N, 64))))
+        return qs
 
     def join(self, A, B):
         """{a ∪ b | a ∈ A, b ∈ B}"""
